@@ -977,6 +977,8 @@ def render_arg(it, v, kind):
         return '<TypeInner>'
     if isinstance(v, Agg) and v.path == 'CreateModuleError':
         return f'<{v.variant}>'
+    if isinstance(v, Agg) and v.path == 'Cow':
+        return render_arg(it, v.fields[0], kind)
     if isinstance(v, Opaque):
         return f'<{v.what}>'
     raise Unsupported(f'format argument {v!r} ({kind})')
@@ -1311,35 +1313,35 @@ def m_flags_all(it, n, a):
     return mkflags(ty, bits)
 
 
-@model(r'impl (wgpu::)?(ShaderStages|StorageAccess)>::contains$')
+@model(r'impl (wgpu::)?(ShaderStages|StorageAccess|Capabilities|ValidationFlags)>::contains$')
 def m_flags_contains(it, n, a):
     s, o = flag_bits(a[0]), flag_bits(a[1])
     return (s & o) == o
 
 
-@model(r'impl (wgpu::)?(ShaderStages|StorageAccess)>::(intersects)$')
+@model(r'impl (wgpu::)?(ShaderStages|StorageAccess|Capabilities|ValidationFlags)>::(intersects)$')
 def m_flags_intersects(it, n, a):
     s, o = flag_bits(a[0]), flag_bits(a[1])
     return (s & o) != 0
 
 
-@model(r'impl (wgpu::)?(ShaderStages|StorageAccess)>::(is_empty)$')
+@model(r'impl (wgpu::)?(ShaderStages|StorageAccess|Capabilities|ValidationFlags)>::(is_empty)$')
 def m_flags_is_empty(it, n, a):
     return flag_bits(a[0]) == 0
 
 
-@model(r'impl (wgpu::)?(ShaderStages|StorageAccess)>::(empty)$')
+@model(r'impl (wgpu::)?(ShaderStages|StorageAccess|Capabilities|ValidationFlags)>::(empty)$')
 def m_flags_empty(it, n, a):
     ty = re.search(r'impl ((wgpu::)?\w+)>::empty', n).group(1)
     return mkflags(ty, 0)
 
 
-@model(r'impl (wgpu::)?(ShaderStages|StorageAccess)>::bits$')
+@model(r'impl (wgpu::)?(ShaderStages|StorageAccess|Capabilities|ValidationFlags)>::bits$')
 def m_flags_bits(it, n, a):
     return flag_bits(a[0])
 
 
-@model(r'impl (wgpu::)?(ShaderStages|StorageAccess)>::(union|intersection|difference)$|ShaderStages as (std::ops::)?(BitOr|BitAnd)>::(bitor|bitand)$')
+@model(r'impl (wgpu::)?(ShaderStages|StorageAccess|Capabilities|ValidationFlags)>::(union|intersection|difference)$|(ShaderStages|StorageAccess|Capabilities|ValidationFlags) as (std::ops::)?(BitOr|BitAnd|Sub)>::(bitor|bitand|sub)$')
 def m_flags_binop(it, n, a):
     x, y = flag_bits(a[0]), flag_bits(a[1])
     if re.search(r'union$|bitor$', n):
@@ -1539,7 +1541,7 @@ def m_from_utf8(it, n, a):
     return it.env['from_utf8'](it, a[0])
 
 
-@model(r'(ParseError|WithSpan::<ValidationError>)::emit_to_(stderr|string)(_with_path)?$')
+@model(r'(ParseError|WithSpan::<ValidationError>)::emit_to_(stderr|string)(_with_path)?(::<.*>)?$')
 def m_emit(it, n, a):
     it.env.setdefault('emit_calls', []).append((n, [deref(x) for x in a]))
     return unit() if 'stderr' in n else Opaque('diagnostic')
@@ -1565,8 +1567,13 @@ def load_consts(schema):
     c = {}
     for k, v in B['wgpu::ShaderStages']['flags'].items():
         c['wgpu::ShaderStages::' + k] = mkflags('wgpu::ShaderStages', v)
-    for k, v in B['StorageAccess']['flags'].items():
-        c['naga::StorageAccess::' + k] = mkflags('StorageAccess', v)
+    for ty, prefixes in (('StorageAccess', ('naga::', '')), ('ValidationFlags', ('naga::valid::', 'valid::', '')),
+                         ('Capabilities', ('naga::valid::', 'valid::', ''))):
+        for k, v in B[ty]['flags'].items():
+            if v is None:
+                continue
+            for pre in prefixes:
+                c[f'{pre}{ty}::{k}'] = mkflags(ty, v)
     return c
 
 
